@@ -978,6 +978,31 @@ def rule_sections_and_ranges(ctx) -> None:
             hd = [dd for dd in rdi.all_defs if dd.name == holder and dd.value is not None and dd.kind == "assign"]
             if hd and all(isinstance(dd.value, ast.Call) and call_tail(dd.value) == "_ensure_dict" and dd.value.args and isinstance(dd.value.args[0], ast.Name) and dd.value.args[0].id in impl.params for dd in hd):
                 raw_of[d.name] = const_str(v.args[0].args[0])
+    # ... and of nested sections: raw_t2_quality = _ensure_dict(raw_t2.get("quality")) is the user's own `t2.quality`
+    full_path = dict(raw_of)
+    for _ in range(3):
+        for d in rdi.all_defs:
+            v = d.value
+            if d.kind == "assign" and d.name not in full_path and isinstance(v, ast.Call) and call_tail(v) == "_ensure_dict" and v.args and isinstance(v.args[0], ast.Call) and call_tail(v.args[0]) == "get" \
+                    and isinstance(v.args[0].func.value, ast.Name) and v.args[0].func.value.id in full_path and v.args[0].args and const_str(v.args[0].args[0]):
+                full_path[d.name] = full_path[v.args[0].func.value.id] + "." + const_str(v.args[0].args[0])
+    for x in walk_no_defs(impl.node):
+        if isinstance(x, ast.If) and isinstance(x.test, ast.Name) and x.test.id in full_path and x.test.id not in raw_of:
+            pth = full_path[x.test.id]
+            leaf = pth.rsplit(".", 1)[1]
+            # only where the section is stored back into the MERGED user tree (a local from _ensure_subdict(merged, ...)): there a
+            # skipped block leaves the user's scalar in place.  Sub-sections of a parent that is rebuilt from scratch (q = {}) are
+            # simply not copied - ignored, not passed through.
+            merged_locals = set(_validator_subdicts(ctx, impl))
+            stores = [y for st in x.body for y in ast.walk(st) if isinstance(y, ast.Assign) and any(isinstance(t, ast.Subscript) and const_str(t.slice) == leaf and isinstance(t.value, ast.Name)
+                                                                                                    and t.value.id in merged_locals for t in y.targets)]
+            if not stores:
+                continue
+            n_sec += 1
+            rejected = any(const_str(c.args[1]) == pth and any("isinstance" in t and "dict" in t for t, pol in cfg.facts(n)) for n, c in errs)
+            ctx.check(rejected, "C14.CONTRACT", f"{impl.qual}/section-must-be-a-mapping:{pth}", impl.loc(x), f"a non-mapping `{pth}` is rejected",
+                      f"`{pth}` is normalised only under `if {x.test.id}:` and nothing rejects a non-mapping value: `{leaf}: on` yields an empty raw section, the block is skipped and the scalar stays in the "
+                      "accepted configuration verbatim - not the documented mapping; the plain CLI summary and the engine call .get on it")
     for x in walk_no_defs(impl.node):
         if isinstance(x, ast.If) and isinstance(x.test, ast.Name) and x.test.id in raw_of:
             want = raw_of[x.test.id]
@@ -996,6 +1021,48 @@ def rule_sections_and_ranges(ctx) -> None:
     ctx.floor("C14.CONTRACT", "divisions in the T1 decay", len(divs), 1)
     ctx.check("t1.decay.alpha" in paths, "C14.CONTRACT", f"{impl.qual}/range:t1.decay.alpha", impl.loc(), "t1.decay.alpha is range-checked (the decay divides by 1 + alpha * d^2)",
               "t1.decay.alpha is coerced but never range-checked: attn_quad divides by 1 + alpha * d^2, so alpha = -1 is accepted and the first relaxation at distance 1 raises ZeroDivisionError")
+    # path knobs: what the engine hands to os.makedirs / open must be creatable at all - a string with an embedded NUL is a
+    # non-empty string, and every file-system call on it raises ValueError('embedded null byte') in the first turn
+    path_knobs = sorted({const_str(c.args[1]) for n, c in errs if len(c.args) >= 3 and const_str(c.args[1]) and "path" in (const_str(c.args[2]) or "")})
+    ctx.floor("C14.CONTRACT", "path-valued knobs of the validator", len(path_knobs), 2)
+    for pk in path_knobs:
+        nul = any(const_str(c.args[1]) == pk and any(pol and ("\\x00" in t or "\x00" in t or "chr(0)" in t) and " in " in t for t, pol in cfg.facts(n)) for n, c in errs)
+        ctx.check(nul, "C14.CONTRACT", f"{impl.qual}/path-without-nul:{pk}", impl.loc(), f"{pk} is rejected when it contains a NUL character",
+                  f"{pk} only has to be a non-empty string: a value with an embedded NUL (JSON \"a\\u0000b\") is accepted, no file system can create it, and the first turn raises "
+                  "ValueError('embedded null byte') out of os.makedirs / open")
+    # ... and raises to a power: float ** int raises OverflowError where inf would be expected (rate = 1e200 at distance 2)
+    pows = [x for x in walk_no_defs(t1.node) if isinstance(x, ast.BinOp) and isinstance(x.op, ast.Pow) and not isinstance(x.left, ast.Constant)]
+    for x in pows:
+        # the config key the base is read from
+        keys = {const_str(c.args[0]) for nm in [y.id for y in ast.walk(x.left) if isinstance(y, ast.Name)]
+                for a in walk_no_defs(t1.node) if isinstance(a, ast.Assign) and any(isinstance(t, ast.Name) and t.id == nm for t in a.targets)
+                for c in ast.walk(a.value) if isinstance(c, ast.Call) and call_tail(c) == "get" and c.args and const_str(c.args[0])}
+        for k in sorted(keys):
+            pth = f"t1.decay.{k}"
+            upper = any(const_str(c.args[1]) == pth and any(("<=" in t or "<" in t) and not pol for t, pol in cfg.facts(n)) for n, c in errs)
+            ctx.check(upper, "C14.CONTRACT", f"{impl.qual}/range:{pth}-bounded-above", impl.loc(), f"{pth} is bounded above (the decay evaluates {k} ** distance)",
+                      f"{pth} is coerced to float but has no upper bound: the decay evaluates `{src(x)}`, and float ** int raises OverflowError (it does not return inf) - `{k}: 1e200` is accepted and a "
+                      "walk that reaches distance 2 raises out of the turn")
+    # the whole t1.decay mapping goes into the T1 cache key as canonical JSON (stable_key(decay_cfg)): json.dumps(sort_keys=True)
+    # raises TypeError on mixed key types and on values JSON has no form for (a YAML date) - so the section has a closed key set
+    t1p = ctx.func("clematis.engine.stages.t1:t1_propagate._t1_one_graph")
+    whole = [x for x in walk_no_defs(t1p.node) if isinstance(x, ast.Call) and call_tail(x) == "stable_key" and x.args and isinstance(x.args[0], ast.Name)]
+    hashed = set()
+    for x in whole:
+        for a in walk_no_defs(t1p.node):
+            if isinstance(a, ast.Assign) and any(isinstance(t, ast.Name) and t.id == x.args[0].id for t in a.targets):
+                for c in ast.walk(a.value):
+                    if isinstance(c, ast.Call) and call_tail(c) == "get" and c.args and const_str(c.args[0]) and isinstance(c.func.value, ast.Name) and c.func.value.id.startswith("cfg_t1"):
+                        hashed.add(const_str(c.args[0]))
+    ctx.floor("C14.CONTRACT", "t1 sub-mappings hashed whole into the T1 cache key", len(hashed), 1)
+    for k in sorted(hashed):
+        pth = f"t1.{k}"
+        closed = any((const_str(c.args[1]) or "").startswith(pth + ".") and "unknown" in (const_str(c.args[2]) or src(c.args[2]))
+                     or (isinstance(c.args[1], ast.JoinedStr) and src(c.args[1]).startswith(f"f'{pth}.") and "unknown" in src(c.args[2])) for n, c in errs if len(c.args) >= 3)
+        per_value = any(isinstance(x, ast.For) and pth.split(".")[-1] in src(x.iter) and any(isinstance(c, ast.Call) and call_tail(c) in COERCERS for st in x.body for c in ast.walk(st)) for x in walk_no_defs(impl.node))
+        ctx.check(closed or per_value, "C14.CONTRACT", f"{impl.qual}/closed-section:{pth}", impl.loc(), f"{pth} has a closed key set (or every entry is coerced) before the engine hashes it whole",
+                  f"the engine puts the whole `{pth}` mapping through canonical JSON for the T1 cache key, and the validator passes its unknown entries through verbatim: an accepted configuration with a "
+                  f"non-string extra key (`1: x`) or a YAML date value under {pth} makes the first turn whose text matches a label raise TypeError")
     fin = False
     for n, c in errs:
         if const_str(c.args[1]) == "graph.update.alpha":
@@ -1051,6 +1118,47 @@ def rule_sections_and_ranges(ctx) -> None:
             ctx.check(kwarg(x, "default") is not None, "C14.API", f"{f.qual}/json-report-carries-accepted-values", f.loc(x), "the JSON report has a fallback encoder for non-JSON scalars",
                       "`validate --json` serialises the accepted configuration without a fallback encoder: a YAML date in a pass-through position (accepted by the API and the plain CLI) dies with "
                       "an uncaught TypeError and exit 1 - another exception, and the verdict differs from the other variants")
+            # ... and for what `default=` never sees: mapping KEYS JSON has no form for (a YAML date as a key) and self-containing
+            # mappings (YAML anchors) - the accepted tree goes through a converter before it is dumped, not in as it is
+            raw_in = [v for d in ast.walk(x) if isinstance(d, ast.Dict) for k, v in zip(d.keys, d.values) if isinstance(v, ast.Name) and "normal" in v.id] + \
+                     [a for a in x.args if isinstance(a, ast.Name) and "normal" in a.id]
+            ctx.check(not raw_in or kwarg(x, "skipkeys") is not None, "C14.API", f"{f.qual}/json-report-carries-accepted-keys", f.loc(x), "the accepted tree is converted (keys, cycles) before json.dumps",
+                      "`validate --json` dumps the accepted configuration as it is: `default=` is consulted for values only - a mapping key that is a YAML date raises TypeError, a self-containing mapping "
+                      "ValueError; exit 1 with a traceback where the API variants and the plain CLI accept")
+        # the verdict reaches the operator: messages quote user keys, and a key with a lone surrogate (legal in JSON text) cannot be
+        # encoded to a UTF-8 stdout - a bare print() of a message dies with UnicodeEncodeError instead of 'CONFIG INVALID ...'
+        exc_names = {h.name for h in walk_no_defs(f.node) if isinstance(h, ast.ExceptHandler) and h.name and h.type is not None and "ConfigError" in src(h.type)}
+        warn_loop_vars = {lp.target.id for lp in walk_no_defs(f.node) if isinstance(lp, ast.For) and isinstance(lp.target, ast.Name) and "warn" in src(lp.iter)}
+        n_msg = 0
+        for x in walk_no_defs(f.node):
+            if isinstance(x, ast.Call) and isinstance(x.func, ast.Name) and x.args and any(isinstance(y, ast.Name) and y.id in (exc_names | warn_loop_vars) for a in x.args for y in ast.walk(a)) \
+                    and not any(k.arg == "file" for k in x.keywords):
+                n_msg += 1
+                ctx.check(x.func.id != "print", "C14.API", ctx.okey(f"{f.qual}/verdict-printed-totally"), f.loc(x), f"`{src(x)[:50]}` goes through a printer that escapes what the stream cannot encode",
+                          f"`{src(x)[:50]}` print()s a message that quotes user-supplied keys: a key with a lone surrogate (`{{\"\\ud800\": 1}}`, valid JSON text) raises UnicodeEncodeError on a UTF-8 stdout - "
+                          "the operator gets a traceback instead of the typed verdict the API variants give")
+        ctx.floor("C14.API", "message-bearing output statements of the CLI", n_msg, 2)
+    # scripts/validate_config.py is a full copy of the packaged CLI outside the package: same two obligations (ad-hoc parse)
+    import os
+    rel = "scripts/validate_config.py"
+    try:
+        tree = ast.parse(open(os.path.join(ctx.prog.repo, rel), encoding="utf-8").read())
+    except OSError:
+        raise AnalysisError(f"anchor-vanished: {rel}")
+    mains = [x for x in ast.walk(tree) if isinstance(x, ast.FunctionDef) and x.name == "main"]
+    delegates = any(isinstance(x, ast.ImportFrom) and (x.module or "").endswith("scripts.validate") for x in ast.walk(tree))
+    if mains and not delegates:
+        for mfn in mains:
+            exc = {h.name for h in ast.walk(mfn) if isinstance(h, ast.ExceptHandler) and h.name and h.type is not None and "ConfigError" in src(h.type)}
+            wl = {lp.target.id for lp in ast.walk(mfn) if isinstance(lp, ast.For) and isinstance(lp.target, ast.Name) and "warn" in src(lp.iter)}
+            bare = [x for x in ast.walk(mfn) if isinstance(x, ast.Call) and isinstance(x.func, ast.Name) and x.func.id == "print" and not any(k.arg == "file" for k in x.keywords)
+                    and any(isinstance(y, ast.Name) and y.id in (exc | wl) for a in x.args for y in ast.walk(a))]
+            dumps = [x for x in ast.walk(mfn) if isinstance(x, ast.Call) and dotted(x.func) == "json.dumps" and any(isinstance(y, ast.Name) and "normal" in y.id for y in ast.walk(x))]
+            raw_in = [v for x in dumps for d in ast.walk(x) if isinstance(d, ast.Dict) for k, v in zip(d.keys, d.values) if isinstance(v, ast.Name) and "normal" in v.id]
+            ctx.check(not bare and not raw_in and all(kwarg(x, "default") is not None for x in dumps), "C14.API", f"{rel}/cli-copy-output-total", f"{rel}:{(bare or raw_in or [mfn])[0].lineno}",
+                      "the repository-level copy of the CLI prints its verdict / JSON report totally, like the packaged one",
+                      f"{rel} (a full copy of the packaged CLI) still " + ("print()s messages that quote user keys" if bare else "dumps the accepted tree as it is") +
+                      ": `python scripts/validate_config.py` dies with a traceback (lone surrogate in a key / YAML date key) where the API variants give the typed verdict")
 
 
 def _validator_minimum(ctx, leaf: str) -> Tuple[Optional[int], int]:
